@@ -107,6 +107,7 @@ fn main() {
                 report.retain_violations(|sig| sig.starts_with("frame-"));
                 // ... and what precedes the first frame: unusual and malformed PROXY headers (panic monitor)
                 c04net::run(&cli, &mut report).await;
+                c04net::bytes_after_the_end_family(&mut report).await;
                 report.finish()
             }
             // C06 at the listener: what a connection that is cut off at the deadline is sent
